@@ -39,7 +39,7 @@ theorem assignAddrs_good {N : Nat} : ∀ (l : List Stmt) (a : Nat), (∀ s ∈ l
           refine ⟨by simp [hl], ?_⟩
           intro x hx
           rcases List.mem_cons.mp hx with rfl | hx
-          · exact ⟨⟨hs.1.val, numV_good 0 hv, hs.1.codes, hs.1.choices, hs.1.rel, hs.1.needs, hs.1.unfixed⟩, hs.2⟩
+          · exact ⟨⟨hs.1.val, numV_good 0 hv, hs.1.codes, hs.1.choices, hs.1.rel, hs.1.needs, hs.1.addl⟩, hs.2⟩
           · exact hr2 x hx
         | diag => exact ⟨by simp, fun r h => by cases h⟩
         | internal => exact absurd hr hni
@@ -92,12 +92,12 @@ theorem addrOf_good {j : Nat} (hj : j < N) : ∃ v, addrOf ss j = some v := by
   have hj' : j < ss.length := by omega
   exact ⟨ss[j].pkg.address, by simp [addrOf, List.getElem?_eq_getElem hj']⟩
 
-/-- the "other" operand of a good address expression: an "unresolved expression" diagnostic (neither a label
+/-- one operand of a good address expression: an "unresolved expression" diagnostic (neither a label
 nor a number) or a (signed, since batch B2) integer: a label's address or a number -/
-theorem addrOther_good {v : Value} (hv : v.Good N) :
-    addrOther ss v = .diag ∨ ∃ add, addrOther ss v = .ok add := by
+theorem addrOperand_good {v : Value} (hv : v.Good N) :
+    addrOperand ss v = .diag ∨ ∃ add, addrOperand ss v = .ok add := by
   obtain ⟨k, hk, hk1, hk2⟩ := hv.int
-  unfold addrOther
+  unfold addrOperand
   by_cases ha : v.isAddress = true
   · rw [if_pos ha, hk]
     obtain ⟨x, hx, hxle⟩ := addrIntOf_good hlen hall (hk1 ha)
@@ -110,90 +110,79 @@ theorem addrOther_good {v : Value} (hv : v.Good N) :
       exact Or.inr ⟨_, rfl⟩
     · rw [if_neg hn]; exact Or.inl rfl
 
-/-- `calculate_address_offset` on a good address expression: no internal error, and the result has an `.int`
-(batch B2: with a signed constant `label * constant` may be a negative number of any magnitude, so the 16-bit
-bound of the earlier version is gone; it is no longer needed, the PCR distance is reduced modulo 65536) -/
-theorem addrOffset_good {l r : Value} {op : Char} {m : Mode} (hv : (Value.expr l r op m true).Good N) :
-    addrOffset ss (.expr l r op m true) ≠ .internal ∧
-      ∀ x, addrOffset ss (.expr l r op m true) = .ok x → ∃ k, x.int? = some k := by
-  obtain ⟨hl, hr, hab⟩ := hv
-  obtain ⟨kl, hkl, hkl1, _⟩ := hl.int
-  obtain ⟨kr, hkr, hkr1, _⟩ := hr.int
-  have hai : ∃ ai, (if l.isAddress = true then l.int? else r.int?) = some ai ∧ ai < N := by
-    by_cases ha : l.isAddress = true
-    · rw [if_pos ha]; exact ⟨kl, hkl, hkl1 ha⟩
-    · rw [if_neg ha]
-      rcases hab rfl with h | h
-      · exact absurd h ha
-      · exact ⟨kr, hkr, hkr1 h⟩
-  have hoth : (if l.isAddress = true then r else l).Good N := by
-    by_cases ha : l.isAddress = true
-    · rw [if_pos ha]; exact hr
-    · rw [if_neg ha]; exact hl
-  obtain ⟨ai, hai, hailt⟩ := hai
-  obtain ⟨a, ha, hale⟩ := addrIntOf_good hlen hall hailt
-  rw [addrOffset_expr]
-  rcases addrOther_good hlen hall hoth with hd | ⟨add, hadd⟩
-  · rw [hd]
-    exact ⟨by simp, fun x h => by cases h⟩
-  rw [hai, hadd]
-  dsimp only
-  rw [ha]
-  dsimp only
-  refine ⟨addrCombine_ne_internal _ _ _, fun x hx => ?_⟩
+omit hlen hall in
+/-- (batch B3) the result of the arithmetic is a 16-bit magnitude: below zero it is reduced modulo 65536, above 65535
+it is a diagnostic -/
+theorem addrCombine_int_le {op : Char} {a b : Int} {x : Value} (hx : addrCombine op a b = .ok x) :
+    ∃ k, x.int? = some k ∧ k ≤ 65535 := by
   unfold addrCombine at hx
   dsimp only at hx
   split at hx
   · cases hx
-  · split at hx
+  · rename_i z _
+    have hw : 0 ≤ (if z < 0 then z % 65536 else z) := by split <;> omega
+    generalize (if z < 0 then z % 65536 else z) = w at hx hw
+    split at hx
     · rename_i nv hnv
       cases hx
       unfold numericOfInt at hnv
       split at hnv
       · cases hnv
-      · cases hnv; exact ⟨_, rfl⟩
+      · rename_i hle
+        cases hnv
+        exact ⟨_, rfl, by omega⟩
     · cases hx
 
-/-- the target of a PCR statement: a diagnostic or a number -/
+/-- `calculate_address_offset` on a good address expression: no internal error, and the result has an `.int`
+(batch B3: a 16-bit magnitude again, a result below zero is reduced modulo 65536 for every operator) -/
+theorem addrOffset_good {l r : Value} {op : Char} {m : Mode} (hv : (Value.expr l r op m true).Good N) :
+    addrOffset ss (.expr l r op m true) ≠ .internal ∧
+      ∀ x, addrOffset ss (.expr l r op m true) = .ok x → ∃ k, x.int? = some k ∧ k ≤ 65535 := by
+  obtain ⟨hl, hr, hab⟩ := hv
+  rw [addrOffset_expr]
+  rcases addrOperand_good hlen hall hl with hd | ⟨a, ha⟩
+  · rw [hd]; exact ⟨by simp, fun x h => by cases h⟩
+  rw [ha]
+  rcases addrOperand_good hlen hall hr with hd | ⟨b, hb⟩
+  · rw [hd]; exact ⟨by simp, fun x h => by cases h⟩
+  rw [hb]
+  exact ⟨addrCombine_ne_internal _ _ _, fun x hx => addrCombine_int_le hx⟩
+
+/-- the target of a PCR statement or of a label offset: a diagnostic or a 16-bit number -/
 theorem fixRel_good {s : Stmt} (hs : s ∈ ss) (hn : s.pkg.needsRes = true) :
-    fixRel ss s = .diag ∨ ∃ r, fixRel ss s = .ok r := by
+    fixRel ss s = .diag ∨ ∃ r, fixRel ss s = .ok r ∧ r ≤ 65535 := by
   have hsf := hall s hs
-  have hch : s.pkg.choices ≠ [] := by
-    intro h0
-    have := hsf.1.unfixed hn h0
-    rw [hsf.2] at this; cases this
-  rcases hsf.1.choices with h0 | ⟨c0, c1, _, _, _, _, hgood, _, ⟨t, ht, htlt⟩⟩
-  · exact absurd h0 hch
-  · have hidx : (s.operand.kind == .indexed || s.operand.kind == .extIndirect) = true := by
-      rcases (hsf.1.needs hn).2 with h | h <;> simp [h]
-    have hplain : (match s.pkg.additional.int? with
-        | some t => (match addrIntOf ss t with | some a => Outcome.ok a | none => .internal)
-        | none => .internal) = .diag ∨ ∃ r, (match s.pkg.additional.int? with
-        | some t => (match addrIntOf ss t with | some a => Outcome.ok a | none => .internal)
-        | none => .internal) = .ok r := by
-      obtain ⟨a, ha, hale⟩ := addrIntOf_good hlen hall htlt
-      rw [ht]; dsimp only; rw [ha]
-      exact Or.inr ⟨a, rfl⟩
-    unfold fixRel
-    simp only [hidx]
-    cases hadd : s.pkg.additional with
-    | expr l r op m ae =>
-      cases ae with
-      | false => rw [hadd] at hplain; exact hplain
-      | true =>
-        rw [hadd] at hgood
-        obtain ⟨hni, hok⟩ := addrOffset_good hlen hall hgood
+  obtain ⟨hgood, _, ⟨t, ht, htlt⟩⟩ := hsf.1.addl hn
+  have hidx : (s.operand.kind == .indexed || s.operand.kind == .extIndirect) = true := by
+    rcases (hsf.1.needs hn).2 with h | h <;> simp [h]
+  have hplain : (match s.pkg.additional.int? with
+      | some t => (match addrIntOf ss t with | some a => Outcome.ok a | none => .internal)
+      | none => .internal) = .diag ∨ ∃ r, (match s.pkg.additional.int? with
+      | some t => (match addrIntOf ss t with | some a => Outcome.ok a | none => .internal)
+      | none => .internal) = .ok r ∧ r ≤ 65535 := by
+    obtain ⟨a, ha, hale⟩ := addrIntOf_good hlen hall htlt
+    rw [ht]; dsimp only; rw [ha]
+    exact Or.inr ⟨a, rfl, hale⟩
+  unfold fixRel
+  simp only [hidx]
+  cases hadd : s.pkg.additional with
+  | expr l r op m ae =>
+    cases ae with
+    | false => rw [hadd] at hplain; exact hplain
+    | true =>
+      rw [hadd] at hgood
+      obtain ⟨hni, hok⟩ := addrOffset_good hlen hall hgood
+      dsimp only
+      cases ho : addrOffset ss (.expr l r op m true) with
+      | ok v =>
+        obtain ⟨k, hk, hkle⟩ := hok v ho
         dsimp only
-        cases ho : addrOffset ss (.expr l r op m true) with
-        | ok v =>
-          obtain ⟨k, hk⟩ := hok v ho
-          dsimp only
-          rw [hk]
-          exact Or.inr ⟨k, rfl⟩
-        | diag => exact Or.inl rfl
-        | internal => exact absurd ho hni
-        | diverged => exact absurd ho (addrOffset_not_diverged _ _)
-    | _ => rw [hadd] at hplain; exact hplain
+        rw [hk]
+        exact Or.inr ⟨k, rfl, hkle⟩
+      | diag => exact Or.inl rfl
+      | internal => exact absurd ho hni
+      | diverged => exact absurd ho (addrOffset_not_diverged _ _)
+  | _ => rw [hadd] at hplain; exact hplain
 
 theorem fixStep3_good {i : Nat} {s : Stmt} (hs : ss[i]? = some s) (hn : s.pkg.needsRes = true) :
     fixStep3 ss i s ≠ .internal := by
@@ -201,7 +190,15 @@ theorem fixStep3_good {i : Nat} {s : Stmt} (hs : ss[i]? = some s) (hn : s.pkg.ne
   obtain ⟨st, hst, _⟩ := addrIntOf_good hlen hall hi
   unfold fixStep3
   rw [if_pos hn, hst]
-  rcases fixRel_good hlen hall (List.mem_of_getElem? hs) hn with h | ⟨r, h⟩
+  split
+  · unfold fixAbs
+    rcases fixRel_good hlen hall (List.mem_of_getElem? hs) hn with h | ⟨r, h, hr⟩
+    · rw [h]; simp
+    · rw [h]
+      dsimp only
+      obtain ⟨v, hv⟩ := numericOfInt_ok_of_le (z := (r : Int)) (by omega) (some 4) .none
+      rw [hv]; simp
+  rcases fixRel_good hlen hall (List.mem_of_getElem? hs) hn with h | ⟨r, h, _⟩
   · rw [h]; simp
   · rw [h]
     dsimp only
